@@ -148,19 +148,18 @@ FILTER_T = '''def {name}(ik1: int, ik2: int, ij1: int, ij2: int, nest1: bool, ne
 '''
 
 
-MERGE_T = '''def {name}(ik1: int, ik2: int, ik3: int, ij1: int, ij2: int, ij3: int, il1: int, il2: int, nx: bool, ny: bool, deep: bool, two: bool) -> bool:
+MERGE_T = '''def {name}(ik1: int, ik2: int, ij1: int, ij2: int, ij3: int, il2: int, nx: bool, ny: bool) -> bool:
     """
-    pre: 0 <= ik1 < {nk} and 0 <= ik2 < {nk} and 0 <= ik3 < {nk} and 0 <= ij1 < 2 and 0 <= ij2 < 2 and 0 <= ij3 < 2 and 0 <= il1 < 2 and 0 <= il2 < 2
+    pre: 0 <= ik1 < 2 and 0 <= ik2 < 2 and 0 <= ij1 < 2 and 0 <= ij2 < 2 and 0 <= ij3 < 2 and 0 <= il2 < 2
     post: _
     """
-    k1, k2, k3, j1, j2, j3, l1, l2 = AL[ik1], AL[ik2], AL[ik3], AL[ij1], AL[ij2], AL[ij3], AL[il1], AL[il2]
+    k1, k2, j1, j2, j3, l1, l2 = AL[ik1], AL[ik2], AL[ij1], AL[ij2], AL[ij3], AL[0], AL[il2]
+    deep = {deep}
     # two nested choice maps (depth <= 3) with symbolic keys, possibly overlapping at any depth
     x = {{}}
-    x[k1] = {{j1: ({{l1: 1}} if deep else 2), j2: 3}} if nx else 4
-    if two:
-        x[k3] = 5
+    x[k1] = {{j1: ({{l1: 1}} if deep else 2), j2: 3}} if (nx or deep) else 4
     y = {{}}
-    y[k2] = {{j3: ({{l2: 10}} if deep else 20)}} if ny else 40
+    y[k2] = {{j3: ({{l2: 10}} if deep else 20)}} if (ny or deep) else 40
     m, d = _G.merge(x, y)
     lx, ly, lm = leaves(x), leaves(y), leaves(m)
     ld = leaves(d) if d else {{}}
@@ -217,9 +216,10 @@ def run_group(g, gid):
         name = f"filt_{k}"
         units.append((name, FILTER_T.format(name=name, expr=e.replace("n3", "n1"), spec=sp.replace("n3", "n1"), nk=3 if th else 2)))
         descs[name] = f"Fn.filter(x, {e}) partitions x: disjoint, union/merge == x, first part == selected leaves"
-    units.append(("merge_0", MERGE_T.format(name="merge_0", nk=3 if th else 2)))
-    descs["merge_0"] = ("Fn.merge(x, y): every leaf of y survives, leaves of x survive unless y overrides them, at EVERY nesting depth "
-                        "(second argument takes precedence); discarded == x's overridden values")
+    for nm, deep in (("merge_0", False), ("merge_1", True)):
+        units.append((nm, MERGE_T.format(name=nm, deep=deep)))
+        descs[nm] = (f"Fn.merge(x, y) on choice maps of depth {3 if deep else 2}: every leaf of y survives, leaves of x survive unless y overrides them, at "
+                     "EVERY nesting depth (second argument takes precedence); discarded == x's overridden values")
     e, sp = shapes(th)[5]
     units.append(("twin_reach", TWIN_T.format(name="twin_reach", expr=e, spec=sp)))
     units.append(("twin_fault", MATCH_T.format(name="twin_fault", expr="sel((n1, n2))", spec="S.Str(n1)")))
